@@ -34,7 +34,7 @@ def obligations(tier, seed):
         o("half", "ir::Expr::half", "half() == Some(h) ==> 2 * value(h) == value(a); None only if some coefficient is odd"),
         o("normalize", "ir::Expr::normalize", "value(a.normalize()) == value(a)"),
         o("symb_evaluate", "ir::Expr::{symb_evaluate, mul_parts}", "value of the substitution result == value(a) under the assignment obtained by evaluating the substituted expressions; like terms stay collected"),
-        o("inc_of", "ir::Expr::inc_of", "inc_of(x) == Some(r) ==> value(a) == rho(x) + value(r)"),
+        o("inc_of", "ir::Expr::{inc_of, const_inc_of, constant, identity, constant_part}", "inc_of(x) == Some(r) ==> value(a) == rho(x) + value(r); const_inc_of(x) == Some(c) ==> value == rho(x) + c; constant() == Some(c) ==> value == c; identity() == Some(x) ==> value == rho(x); constant_part() == value at the all-zero assignment (the last four are proved in u4: bounded twin)"),
         o("prod_inc_of", "ir::Expr::prod_inc_of", "prod_inc_of(x) == Some((r, m)) ==> value(a) == m * rho(x) + value(r)"),
         o("prod_of", "ir::Expr::prod_of", "prod_of(x) == Some(r) ==> value(a) == rho(x) * value(r)"),
         o("add_sorted", "ir::Expr::add (on the results of mul / normalize, which may be unsorted)", "value(a.add(b)) == value(a) + value(b) also for operands produced by mul and normalize; like terms stay collected"),
